@@ -34,6 +34,9 @@ func caseRand(i int) int64 { return 11000000 + int64(i) }
 // optRand: the PRNG the option bits of history i are drawn from.
 func optRand(i int) int64 { return 11400000 + int64(i) }
 
+// docOptRand: the PRNG the option bits of the document objects of history i are drawn from.
+func docOptRand(i int) int64 { return 11800000 + int64(i) }
+
 // isBind: every fifth history is a binding history (pool_bind.go).
 func isBind(i int) bool { return i%5 == 4 && !isKeys(i) }
 
@@ -46,6 +49,9 @@ func isKeys(i int) bool { return i >= keysBase }
 // nBase / nKeys: histories of the two number ranges per run.
 func nBase() int { return vh.Pick(6250, 75000) } // four in five as before the binding histories were added (5000 / 60000), one in five binding
 func nKeys() int { return vh.Pick(600, 7200) }
+
+// nDocSeq: cases of the one-document stream (docseq.go) per run.
+func nDocSeq() int { return vh.Pick(6000, 60000) }
 
 // histID: the number of the history evaluated in slot j of a run.
 func histID(j int) int {
@@ -63,7 +69,7 @@ func genHistory(i int, withKnown bool) *History {
 	case isBind(i):
 		family = FamBind
 	}
-	return Generate(vh.NewRand(caseRand(i)), vh.NewRand(optRand(i)), withKnown, family)
+	return Generate(vh.NewRand(caseRand(i)), vh.NewRand(optRand(i)), vh.NewRand(docOptRand(i)), withKnown, family)
 }
 
 // RunHistory generates history i (PRNG derived from VERIF_SEED and i), runs it
@@ -71,7 +77,7 @@ func genHistory(i int, withKnown bool) *History {
 func RunHistory(i int, withKnown bool) HistResult {
 	h := genHistory(i, withKnown)
 	res := HistResult{Idx: i, Key: h.Text()}
-	input := fmt.Sprintf("history #%d (vh.NewRand(%d); option bits vh.NewRand(%d)): %s", i, caseRand(i), optRand(i), res.Key)
+	input := fmt.Sprintf("history #%d (vh.NewRand(%d); option bits vh.NewRand(%d), of documents vh.NewRand(%d)): %s", i, caseRand(i), optRand(i), docOptRand(i), res.Key)
 	w := NewWorld(h)
 	var helds []Held
 	changed := map[int]bool{} // held values already reported
@@ -178,6 +184,23 @@ func RunHistory(i int, withKnown bool) HistResult {
 	}
 	for _, st := range optionStats(h) {
 		stat(st)
+	}
+	for x, o := range h.Objs {
+		if o.Kind != KDoc || !o.Opt {
+			continue
+		}
+		nops := 0
+		for _, op := range h.Ops {
+			if (op.Obj == x && op.Code != OpNew) || (op.Code == OpValidate && op.Arg == x) {
+				nops++
+			}
+		}
+		if nops > 0 {
+			stat("docopt_document_objects_created_with_AllowTrailingNonSpaceCharacters")
+		}
+		if nops >= 2 {
+			stat("docopt_such_objects_with_2+_operations")
+		}
 	}
 	if h.KnownClass(len(h.Ops)) != "" {
 		stat("histories_in_class_K-C11-sharedallof")
@@ -461,9 +484,12 @@ func runAll(n, workers int, withKnown, reverse bool, garbage bool) (out []HistRe
 //	--no-known   do not generate the K-C11-sharedallof situations
 //	--no-multierr  skip the multi-error stream (multierr.go)
 //	--only-multierr  the multi-error stream alone
+//	--no-docseq    skip the one-document stream (docseq.go)
+//	--only-docseq  the one-document stream alone
 //	--child      (hidden) print one digest per history and exit
 func Run(args []string) {
 	withKnown, child, garbage, noMulti, onlyMulti := true, false, false, false, false
+	noDoc, onlyDoc := false, false
 	for _, a := range args {
 		switch a {
 		case "--no-known":
@@ -476,6 +502,10 @@ func Run(args []string) {
 			noMulti = true
 		case "--only-multierr":
 			onlyMulti = true
+		case "--no-docseq":
+			noDoc = true
+		case "--only-docseq":
+			onlyDoc, noMulti = true, true
 		}
 	}
 	n := nBase() + nKeys()
@@ -497,7 +527,7 @@ func Run(args []string) {
 			"user-type texts (valid, syntactically / semantically invalid, failing in an added type, enum rules, regex types, allOf, or, key "+
 			"shortcuts, recursion, self-added type; every ROOT KIND: scalar of each kind, array empty / of scalars / of objects / nested / of references, "+
 			"empty object, type-shortcut roots @t and or-shortcut roots @a | @b resolving to each kind, or-rule roots), their AddRule/AddType set-up interleaved with Check/Validate/Len/Example/GetAST/"+
-			"UsedUserTypes, late AddType/AddRule, "+fmt.Sprint(NDocs())+" documents incl. malformed / trailing bytes (Check/Len/NextLexeme, Check before Validate on one object), 6 enum rules, 6 regex types; type, rule and document "+
+			"UsedUserTypes, late AddType/AddRule, "+fmt.Sprint(NDocs())+" documents incl. malformed / trailing bytes (Check/Len/NextLexeme, Check before Validate on one object; one document object in three created with json.AllowTrailingNonSpaceCharacters(), the fresh documents of the oracle likewise), 6 enum rules, 6 regex types; type, rule and document "+
 			"objects are shared between schemas of a history (one history in three is sharing-focused: 2-3 roots with common type / rule specs, common objects nearly always shared, set-up first, fitting documents); "+
 			"one history in five is a BINDING history: 2-3 roots of the family ("+fmt.Sprint(len(bindShareds))+" shared type texts referring to @x / @y by every reference form) x ("+fmt.Sprint(len(bindBindings))+" bindings of the name per root: "+
 			"each JSON kind, two object shapes, regex type, type with a missing reference, invalid, not loading, missing) x (4 root forms) = "+fmt.Sprint(len(BindRoots()))+" root texts, ONE type object added to all roots, roots set up and compiled in any order; "+
@@ -507,9 +537,13 @@ func Run(args []string) {
 			"documents: the root's full document and every document lacking exactly one key of it at any depth; "+
 			"every result is compared with the same operation on fresh objects (same "+
 			"AddType/AddRule prefix), every handed-out value (example bytes, AST, error value, used-type slice, enum values, lexeme) is deep-copied at hand-out and re-read after EVERY later call (live and fresh-object) and at the end; whole run repeated in-process and in 3 child processes. "+
-			"MULTI-ERROR cases (keys 'multierr: …'): root + 2-4 added types with several simultaneous errors (in the root, in named types, in unnamed or-shortcut / or rule-set types, AddType failures), each input constructed from scratch "+fmt.Sprint(vh.Pick(300, 600))+
+			"MULTI-ERROR cases (keys 'multierr: …'): root + 2-4 added types with several simultaneous errors (in the root, in named types, in unnamed or-shortcut / or rule-set types, AddType failures; two site profiles, one with mostly unnamed, one with mostly named offending types), "+
+			"the FILE NAME of the root and of every type object an input of its own drawn independently of the type names (permutation of a pool of "+fmt.Sprint(len(meFileNames))+" names incl. the empty name / independent draws with equal names / one name for all / the type's own name), each input constructed from scratch "+fmt.Sprint(vh.Pick(300, 600))+
 			" times with heap churn (allocations of varying sizes and kinds, big blocks, drops, occasional runtime.GC()) between all calls on all workers at once: AddType errors, Check (code, position, file, user type, message) and one more call must be identical in all constructions. "+
-			"Non-trivial = some object is the target of >= 2 non-set-up operations or the argument of >= 2 operations; multi-error case: >= 2 wrong sites")
+			"DOCUMENT cases (keys 'docseq: …'): "+fmt.Sprint(nDocSeq())+" documents = blanks + JSON value ("+fmt.Sprint(len(dsValues))+" values of every kind, well-formed and malformed) + tail ("+fmt.Sprint(len(dsTails))+" tails: nothing, blanks, non-space text of several kinds adjacent to the value or after a blank / line break), "+
+			"created with json.AllowTrailingNonSpaceCharacters() or without (drawn independently of the text), and 2-6 calls on that ONE object in any order with repetitions: read to the end (NextLexeme until EOF / error: the whole lexeme stream), 1-3 single NextLexeme, Validate of a fresh schema (fitting or not), Check, Len; "+
+			"every call's result (lexeme stream with bounds, verdict, error code and position, length) is compared with the same call on a FRESH document with the same text and option (for the cursor-moving calls after replaying the cursor-moving calls made since the document was last at its start: new, or rewound by its first Check / first Len), lexemes handed out are re-read after every later call. "+
+			"Non-trivial = some object is the target of >= 2 non-set-up operations or the argument of >= 2 operations; multi-error case: >= 2 wrong sites; document case: a cursor-moving call that is not the first call")
 	// diffs are buffered so that unclassified ones are reported first (the
 	// report keeps the first 25 only)
 	var buffered []vh.Diff
@@ -543,7 +577,23 @@ func Run(args []string) {
 		rep.Extra["multierr_seconds"] = fmt.Sprintf("%.1f", time.Since(t0).Seconds())
 		mrs = nil
 		runtime.GC()
-		if onlyMulti {
+	}
+	if onlyMulti {
+		finish()
+		return
+	}
+	// the one-document stream
+	if !noDoc && !onlyMulti {
+		t0 := time.Now()
+		drs, dto := runDocSeq(nDocSeq(), workers)
+		if dto >= 0 {
+			addDiff(vh.Diff{Component: "C11-document", Input: fmt.Sprintf("document case #%d: %s", dto, dsGenerate(dto).Text()), Impl: "TIMEOUT", Model: "every operation terminates"})
+			finish()
+			return
+		}
+		reportDocSeq(rep, addDiff, drs)
+		rep.Extra["docseq_seconds"] = fmt.Sprintf("%.1f", time.Since(t0).Seconds())
+		if onlyDoc {
 			finish()
 			return
 		}
